@@ -13,16 +13,16 @@ HIST = {
  "C12-b": "missed at first (Floating = double never instantiated for Mapped) -> four Floating=double configurations",
  "C18-b": "missed by C18 at first (histories too shallow for base 8), caught by C05/C06 -> deep C histories (bulk > 4096 pairs, > 9000 operations)",
  "C19-b": "missed at first (indexes <= 3000 keys) -> assignment chains over large indexes shrinking/growing by a few percent per step",
- "C14-b": "not a violation of C14's own quantifier (the object is correct until it is copied and the source overwritten); caught by C19",
+ "C14-b": "originally outside what C14's engine did (the object is correct until it is copied and the source overwritten) and caught by C19 only; since the object-lifecycle variation (after C10-e) C14's own check queries copied objects and reports it too",
  "C17-a": "also reported by C13 as a crash",
  "C17-b": "same site as C19-a (found independently)",
  "C02-c": "same change as C01-b (submitted independently for C02)",
  "C05-c": "same change as C01-a, aimed at the per-level indexes; missed at first (no level reached 2^15 items) -> big_bulk histories; also reported by C15",
  "C06-c": "same mechanism as C05-b (submitted independently for C06)",
  "C03-c": "missed at first (every requested thread was delivered) -> some shards run with OMP_THREAD_LIMIT=2/3 or OMP_DYNAMIC=true; also reported by C02",
- "C08-c": "missed at first -> '#big' cases with one giant run inside irregular keys (detected on 5 of 6 seeds in the quick tier: the trigger is a narrow bit-width window)",
+ "C08-c": "missed at first -> '#big' cases with one giant run inside irregular keys; statistical (the trigger is a narrow bit-width window): 5 of 6 seeds with 16 such cases per flavour (it had dropped to 2 of 6 with 8 cases when the generators shifted)",
  "C10-c": "missed at first (vector length multiple of 64 has probability 1/64 per dataset) -> '#sweep' cases: ~70 prefixes of one array, a few keys apart, pass through all residues",
- "C19-c": "caught by one assignment-chain / copy case in the quick tier (crash); the trigger is a count that is an exact multiple of 4096",
+ "C19-c": "caught by a single lucky case at first and lost again when the generators shifted -> '#mult' cases: prefixes located by bisection whose segment count is 4096k-1, 4096k, 4096k+1 are copy-constructed and copy-assigned; the change makes the copy loop forever: reported as hang + crash + ASan report, the check then takes ~10 min",
  "C10-d": "missed at first -> big_dense_burst family (hundreds of thousands of segment keys inside a few Elias-Fano buckets)",
  "C13-d": "missed by C13 at first (point sets <= 5000, never chunked), reported by C02 all along -> big_dense_grid point sets of 2^15..2^16 points",
  "C17-d": "missed at first (about 1 large index in 100 has the geometry) -> universe sweep: the last block of keys moves bucket by bucket across the next multiple of 4096 buckets (the evidence counts the steps with the critical geometry)",
